@@ -171,6 +171,8 @@ func c03Sites(g *hx.Gen) []c03Site {
 		{"", c03A, "", []string{"basicauth bob pw /area/locked", "internal /area/inner"}, u},
 		{"", "/area|tar", "", []string{"basicauth bob pw /area/locked/", "internal /area/inn"}, u},
 		{"", c03A, "", []string{"internal /int/i.txt", "internal /int/index.html", "internal /top.txt.gz"}, u},
+		{"", "", "", []string{"internal /top.txt.g", "internal /docs/ind"}, u},
+		{"", "", "", []string{"basicauth bob pw /top.txt.g,/docs/ind"}, u},
 		{"", "", "", []string{"tryfiles {path} /pub/a.txt", "basicauth bob pw /secret"}, u},
 		{"", "", "", []string{"tryfiles {path} /secret/s.txt", "basicauth bob pw /secret"}, u},
 		{"/pre", "", "", []string{"tryfiles {path} /pub/a.txt", "basicauth bob pw /secret"}, u},
@@ -195,6 +197,10 @@ func c03Sites(g *hx.Gen) []c03Site {
 				for _, pre := range []string{"", "/pre"} {
 					for _, br := range []string{"", c03A} {
 						for _, extra := range [][]string{{}, {"gzip"}, {"proxy /api 9001"}} {
+							// a seeded third of the 216 combinations (the case file of all of them is several GB)
+							if !g.Rng.Chance(1, 3) {
+								continue
+							}
 							d := append(append(append([]string{}, r...), p...), extra...)
 							sites = append(sites, c03Site{pre, br, "", d, u})
 						}
